@@ -72,48 +72,47 @@ def specBroadcastTo (s t : List Nat) : Option (List Nat) :=
   if s.length ≤ t.length ∧ ((List.zip (padL t.length s) t).all fun p => decide (p.1 = p.2 ∨ p.1 = 1)) = true
   then some t else none
 
-/-- the full-strength statement for `is_result=True`: the code agrees with NumPy's `broadcast_to` rule
-for all shapes.  FALSE for the code as written — see `bshape2_result_spec_counterexample`. -/
-def Statement_bshape2_result_spec : Prop :=
-  ∀ s t : List Nat, bshape2 s t true = (match specBroadcastTo s t with | some r => .ok r | none => .error .value)
-
-/-- region of the finding: the operand has more axes than the target -/
-def ExcludedMoreAxes (s t : List Nat) : Prop := t.length < s.length
-instance (s t : List Nat) : Decidable (ExcludedMoreAxes s t) := by unfold ExcludedMoreAxes; infer_instance
-
-/-- **bshape2_result_exact.** What the code does with `is_result=True`, for all shapes: only the
-axes common to both shapes (the `zip`, which stops at the shorter one) are checked — operand extent
-equal to the target's or 1 — and the `zip_longest` then KEEPS every extra leading axis of the operand. -/
+/-- **bshape2_result_exact.** What the code does with `is_result=True`, for all shapes: an operand
+with more axes than the result shape is rejected by the rank guard; otherwise every aligned pair
+(the `zip` then covers the whole operand) must have the operand extent equal to the target's or 1,
+and the result is the target shape itself. -/
 theorem bshape2_result_exact (s t : List Nat) :
     bshape2 s t true =
-      if ((List.zip s.reverse t.reverse).all fun p => decide (p.1 = p.2 ∨ p.1 = 1)) = true
-      then .ok (s.take (s.length - t.length) ++ t) else .error .value := by
-  by_cases h : ZipOk s t true
-  · rw [if_pos ((zipOk_result_iff s t).mpr h), bshape2_of_ok h, bdims_result h]
-  · rw [if_neg (fun hh => h ((zipOk_result_iff s t).mp hh)), bshape2_of_not_ok h]
+      if s.length ≤ t.length ∧ ((List.zip s.reverse t.reverse).all fun p => decide (p.1 = p.2 ∨ p.1 = 1)) = true
+      then .ok t else .error .value := by
+  by_cases hl : s.length ≤ t.length
+  · by_cases h : ZipOk s t true
+    · rw [if_pos ⟨hl, (zipOk_result_iff s t).mpr h⟩, bshape2_true_of_ok hl h, bdims_result h]
+      have : s.length - t.length = 0 := by omega
+      simp [this]
+    · rw [if_neg (fun hh => h ((zipOk_result_iff s t).mp hh.2)), bshape2_of_not_ok h]
+  · rw [if_neg (fun hh => hl hh.1), bshape2_of_more_axes (by omega)]
 
-/-- **bshape2_result_spec_partial.** When the operand has no more axes than the target the code is
-NumPy's `broadcast_to` rule: the target shape, or `ValueError`. -/
-theorem bshape2_result_spec_partial (s t : List Nat) (h : ¬ ExcludedMoreAxes s t) :
+/-- **bshape2_result_spec.** With `is_result=True` (the call made by `broadcast_to`) the code is
+NumPy's `broadcast_to` rule for ALL shapes: the target shape when the operand has no more axes than
+the target and every aligned operand extent equals the target's or is 1, `ValueError` otherwise. -/
+theorem bshape2_result_spec (s t : List Nat) :
     bshape2 s t true = (match specBroadcastTo s t with | some r => .ok r | none => .error .value) := by
-  have hl : s.length ≤ t.length := by unfold ExcludedMoreAxes at h; omega
   unfold specBroadcastTo
-  by_cases hz : ZipOk s t true
-  · rw [if_pos ⟨hl, (padL_zip_all_iff hl).mpr hz⟩, bshape2_of_ok hz, bdims_result hz]
-    have : s.length - t.length = 0 := by omega
-    simp [this]
-  · rw [if_neg (fun hh => hz ((padL_zip_all_iff hl).mp hh.2)), bshape2_of_not_ok hz]
+  by_cases hl : s.length ≤ t.length
+  · by_cases hz : ZipOk s t true
+    · rw [if_pos ⟨hl, (padL_zip_all_iff hl).mpr hz⟩, bshape2_true_of_ok hl hz, bdims_result hz]
+      have : s.length - t.length = 0 := by omega
+      simp [this]
+    · rw [if_neg (fun hh => hz ((padL_zip_all_iff hl).mp hh.2)), bshape2_of_not_ok hz]
+  · rw [if_neg (fun hh => hl hh.1), bshape2_of_more_axes (by omega)]
 
-/-- **bshape2_result_spec_counterexample.** `broadcast_to` of a `(2, 3)` array to shape `(3,)`:
-NumPy raises `ValueError` (the operand has more dimensions than the target); the code's check sees
-only the pair `(3, 3)` and returns shape `(2, 3)`. -/
-theorem bshape2_result_spec_counterexample : ¬ Statement_bshape2_result_spec := by
-  intro h
-  have h1 : bshape2 [2, 3] [3] true = .ok [2, 3] := by rfl
-  have h2 : specBroadcastTo [2, 3] [3] = none := by decide
-  have := h [2, 3] [3]
-  rw [h1, h2] at this
-  cases this
+/-- NumPy's admissibility gives the code's: the hypothesis used by the array-level theorems below -/
+theorem bshape2_of_specBroadcastTo {s t : List Nat} (h : specBroadcastTo s t = some t) :
+    bshape2 s t true = .ok t := by
+  rw [bshape2_result_spec, h]
+
+/-- the former failing input (operand `(2,3)`, target `(3,)`; fixed upstream in 13786a7): now rejected,
+as NumPy does; and a stretched target extent is rejected as before -/
+example : bshape2 [2, 3] [3] true = .error .value ∧ specBroadcastTo [2, 3] [3] = none ∧
+    bshape2 [3, 1] [4] true = .error .value ∧ bshape2 [3] [1] true = .error .value := ⟨by rfl, by decide, by rfl, by rfl⟩
+example : bshape2 [1, 3] [2, 2, 3] true = .ok [2, 2, 3] ∧ specBroadcastTo [1, 3] [2, 2, 3] = some [2, 2, 3] :=
+  ⟨by rfl, by decide⟩
 
 /-! ## n-ary broadcasting -/
 
@@ -190,46 +189,56 @@ indices in range) that broadcasts to `dst`, `(j, v)` is emitted iff `j` is an in
 and the operand stores `v` at the index `j` reads under broadcasting.  Every stored entry is
 replicated exactly over the broadcast axes, nothing else is emitted. -/
 theorem expand_mem {α : Type} (es : List (Idx × α)) (src dst : List Nat)
-    (hb : bshape2 src dst true = .ok dst) (hwf : ∀ e ∈ es, InB e.1 src) (j : Idx) (v : α) :
+    (hb : specBroadcastTo src dst = some dst) (hwf : ∀ e ∈ es, InB e.1 src) (j : Idx) (v : α) :
     (j, v) ∈ COO.expand es src dst ↔ InB j dst ∧ (projIdx src dst j, v) ∈ es :=
-  COO.mem_expand (bcTo_of_bshape2 hb) hwf j v
+  COO.mem_expand (bcTo_of_bshape2 (bshape2_of_specBroadcastTo hb)) hwf j v
 
 /-- **expand_nodup.** … and each result index is emitted once (no duplicates: the
 `has_duplicates=False` that `broadcast_to` passes to the constructor is justified). -/
 theorem expand_nodup {α : Type} (es : List (Idx × α)) (src dst : List Nat)
-    (hb : bshape2 src dst true = .ok dst) (hwf : ∀ e ∈ es, InB e.1 src) (hnd : (COO.keysOf es).Nodup) :
+    (hb : specBroadcastTo src dst = some dst) (hwf : ∀ e ∈ es, InB e.1 src) (hnd : (COO.keysOf es).Nodup) :
     (COO.keysOf (COO.expand es src dst)).Nodup :=
-  COO.nodup_expand (bcTo_of_bshape2 hb) hwf hnd
+  COO.nodup_expand (bcTo_of_bshape2 (bshape2_of_specBroadcastTo hb)) hwf hnd
 
-/-- **broadcastTo_get.** `broadcast_to(x, s)` for a target `s` the code accepts as such: the result
+/-- **broadcastTo_get.** `broadcast_to(x, s)` for every target `s` NumPy admits: the result
 has shape `s`, the operand's fill value, in-range distinct stored indices, and at every index `j` of
 `s` holds the operand's value at the projected index (extent-1 axes read coordinate 0, extra leading
 axes are dropped) — NumPy's `broadcast_to`. -/
 theorem broadcastTo_get {α : Type} (x : COO α) (s : List Nat) (hwf : x.WF) (hnd : x.keys.Nodup)
-    (h : bshape2 x.shape s true = .ok s) :
+    (h : specBroadcastTo x.shape s = some s) :
     ∃ r, x.broadcastTo s = .ok r ∧ r.shape = s ∧ r.fill = x.fill ∧ r.WF ∧ r.keys.Nodup ∧
       ∀ j, InB j s → r.get j = x.get (projIdx x.shape s j) :=
-  COO.broadcastTo_spec x s hwf hnd h
+  COO.broadcastTo_spec x s hwf hnd (bshape2_of_specBroadcastTo h)
 
-/-- **broadcastTo_more_axes_witness.** The finding at array level (model = code, replayed on the
-implementation): `broadcast_to` of a `(2,3)` array to `(3,)` succeeds and returns a `(2,3)` array,
-where NumPy raises `ValueError`.  `broadcastTo_get` therefore carries the hypothesis that the code's
-shape computation returns the TARGET shape. -/
-theorem broadcastTo_more_axes_witness :
-    ∃ r, COO.broadcastTo (⟨[2, 3], [([0, 1], (5 : Int))], 0⟩ : COO Int) [3] = .ok r ∧ r.shape = [2, 3] ∧
-      specBroadcastTo [2, 3] [3] = none :=
-  ⟨_, rfl, rfl, by decide⟩
+/-- **broadcastTo_error.** … and for every target NumPy rejects (a stretched target extent, an
+incompatible pair, or an operand with more axes than the target) `broadcast_to` raises `ValueError`. -/
+theorem broadcastTo_error {α : Type} (x : COO α) (s : List Nat) (h : specBroadcastTo x.shape s = none) :
+    x.broadcastTo s = .error .value := by
+  have hb : bshape2 x.shape s true = .error .value := by rw [bshape2_result_spec, h]
+  have hne : s ≠ x.shape := by
+    intro hs
+    subst hs
+    have hz : ZipOk x.shape x.shape true := fun k _ _ => Or.inl rfl
+    rw [bshape2_true_of_ok (Nat.le_refl _) hz] at hb
+    cases hb
+  unfold COO.broadcastTo
+  rw [if_neg hne, hb]
+
+/-- the former array-level witness: a `(2,3)` array broadcast to `(3,)` is now rejected -/
+example : COO.broadcastTo (⟨[2, 3], [([0, 1], (5 : Int))], 0⟩ : COO Int) [3] = .error .value :=
+  broadcastTo_error _ _ (by decide)
 
 /-- **broadcastTo_sorted_promise.** The `sorted=` claim: when `broadcast_to` computes
 `sorted = True` (the non-broadcast axes are adjacent, `expandSorted`) and the operand's entries are in
 canonical order, the expansion is ALREADY in canonical order of the target shape — the constructor,
 which then skips `_sort_indices`, receives what it was promised. -/
 theorem broadcastTo_sorted_promise {α : Type} (x : COO α) (s : List Nat) (hwf : x.WF)
-    (hs : COO.SortedLin x.shape x.entries) (h : bshape2 x.shape s true = .ok s)
+    (hs : COO.SortedLin x.shape x.entries) (h : specBroadcastTo x.shape s = some s)
     (hadj : COO.expandSorted x.shape s = true) :
     COO.SortedLin s (COO.expand x.entries x.shape s) ∧
     ∃ r, x.broadcastTo s = .ok r ∧ COO.SortedLin s r.entries ∧
       (s ≠ x.shape → r.entries = COO.expand x.entries x.shape s) := by
+  have h := bshape2_of_specBroadcastTo h
   have hsorted := COO.expand_sortedLin (bcTo_of_bshape2 h) hwf hs hadj
   refine ⟨hsorted, ?_⟩
   unfold COO.broadcastTo
@@ -242,7 +251,7 @@ theorem broadcastTo_sorted_promise {α : Type} (x : COO α) (s : List Nat) (hwf 
 
 /-- the claim without the adjacency condition -/
 def Statement_expand_sorted_unconditionally : Prop :=
-  ∀ (es : List (Idx × Int)) (src dst : List Nat), bshape2 src dst true = .ok dst →
+  ∀ (es : List (Idx × Int)) (src dst : List Nat), specBroadcastTo src dst = some dst →
     (∀ e ∈ es, InB e.1 src) → COO.SortedLin src es → COO.SortedLin dst (COO.expand es src dst)
 
 /-- **expand_sorted_needs_adjacency.** The condition is needed: with parameters
@@ -253,7 +262,7 @@ theorem expand_sorted_needs_adjacency : ¬ Statement_expand_sorted_unconditional
     COO.lin [2, 3, 2] (COO.expand [([0, 0, 0], (5 : Int)), ([0, 0, 1], 7)] [2, 1, 2] [2, 3, 2]) = [0, 2, 4, 1, 3, 5] := by
   refine ⟨?_, by decide, by decide⟩
   intro h
-  have := h [([0, 0, 0], 5), ([0, 0, 1], 7)] [2, 1, 2] [2, 3, 2] (by rfl) (by decide) (by decide)
+  have := h [([0, 0, 0], 5), ([0, 0, 1], 7)] [2, 1, 2] [2, 3, 2] (by decide) (by decide) (by decide)
   revert this
   decide
 
@@ -261,8 +270,8 @@ theorem expand_sorted_needs_adjacency : ¬ Statement_expand_sorted_unconditional
 example : COO.expand [([0, 0], (5 : Int)), ([0, 2], 7)] [1, 3] [2, 2, 3] =
     [([0, 0, 0], 5), ([0, 0, 2], 7), ([0, 1, 0], 5), ([0, 1, 2], 7),
      ([1, 0, 0], 5), ([1, 0, 2], 7), ([1, 1, 0], 5), ([1, 1, 2], 7)] := by decide
-example : bshape2 [1, 3] [2, 2, 3] true = .ok [2, 2, 3] ∧ COO.expandSorted [1, 3] [2, 2, 3] = true ∧
-    COO.SortedLin [1, 3] [([0, 0], (5 : Int)), ([0, 2], 7)] := ⟨by rfl, by decide, by decide⟩
+example : specBroadcastTo [1, 3] [2, 2, 3] = some [2, 2, 3] ∧ COO.expandSorted [1, 3] [2, 2, 3] = true ∧
+    COO.SortedLin [1, 3] [([0, 0], (5 : Int)), ([0, 2], 7)] := by decide
 
 /-! ## `_Elemwise` for any arity -/
 
@@ -403,10 +412,10 @@ example : ∃ r, (COO.broadcastTo ⟨[1, 3], [([0, 0], (5 : Int)), ([0, 2], 7)],
     r.shape = [2, 2, 3] ∧ r.get [1, 1, 2] = 7 ∧ r.get [1, 0, 1] = 1 ∧ COO.SortedLin [2, 2, 3] r.entries := by
   obtain ⟨r, hr, hshape, _, _, _, hget⟩ :=
     broadcastTo_get (⟨[1, 3], [([0, 0], (5 : Int)), ([0, 2], 7)], 1⟩ : COO Int) [2, 2, 3]
-      (by decide) (by decide) (by rfl)
+      (by decide) (by decide) (by decide)
   obtain ⟨_, r', hr', hs', _⟩ :=
     broadcastTo_sorted_promise (⟨[1, 3], [([0, 0], (5 : Int)), ([0, 2], 7)], 1⟩ : COO Int) [2, 2, 3]
-      (by decide) (by decide) (by rfl) (by decide)
+      (by decide) (by decide) (by decide) (by decide)
   have : r' = r := Except.ok.inj (hr'.symm.trans hr)
   subst this
   refine ⟨r', hr, hshape, ?_, ?_, hs'⟩
